@@ -71,6 +71,7 @@ class CompiledLogicNet(torch.nn.Module):
         self.conv_layers = []
         self.pooling_layers = []
         self.linear_layers = []
+        self.linear_in_dims = []
         self.num_classes = None
         self.input_shape = None
         self.layer_order = []
@@ -109,6 +110,7 @@ class CompiledLogicNet(torch.nn.Module):
                 self.linear_layers.append(
                     (layer.indices[0], layer.indices[1], layer.get_gate_ids())
                 )
+                self.linear_in_dims.append(layer.in_dim)
                 self.layer_order.append(('linear', len(self.linear_layers) - 1))
             elif isinstance(layer, torch.nn.Flatten):
                 self.layer_order.append(('flatten', 0))
@@ -117,9 +119,13 @@ class CompiledLogicNet(torch.nn.Module):
             elif isinstance(layer, GroupSum):
                 if verbose:
                     print(f"Found GroupSum layer with {layer.k} classes")
+            elif isinstance(layer, torch.nn.Identity):
+                continue
             else:
-                if verbose:
-                    print(f"Warning: Unknown layer type: {type(layer)}")
+                raise ValueError(
+                    f"Cannot compile layer of type {type(layer).__name__}: only LogicConv2d, LogicConv3d, "
+                    "OrPooling, Flatten, LogicDense and a final GroupSum in a flat Sequential are supported."
+                )
 
         if verbose:
             print(f"Parsed {len(self.conv_layers)} conv, {len(self.pooling_layers)} pooling, {len(self.linear_layers)} linear layers")
@@ -138,6 +144,50 @@ class CompiledLogicNet(torch.nn.Module):
                     break
             if first_linear:
                 self.input_shape = (first_linear.in_dim,)
+
+        self._validate_structure()
+
+    def _validate_structure(self):
+        """Refuse models whose structure the code generator cannot translate faithfully."""
+        modules = [m for m in self.model if not isinstance(m, torch.nn.Identity)]
+        group_sums = [i for i, m in enumerate(modules) if isinstance(m, GroupSum)]
+        if len(group_sums) > 1 or (group_sums and group_sums[0] != len(modules) - 1):
+            raise ValueError("GroupSum is only supported once, as the last layer.")
+
+        order = [layer_type for layer_type, _ in self.layer_order]
+        spatial = [i for i, t in enumerate(order) if t in ('conv', 'pool')]
+        flatten = [i for i, t in enumerate(order) if t == 'flatten']
+        linear = [i for i, t in enumerate(order) if t == 'linear']
+        if spatial:
+            if order[0] != 'conv':
+                raise ValueError("The first layer of a convolutional model must be a logic convolution "
+                                 "(the input shape is taken from it).")
+            if spatial != list(range(len(spatial))):
+                raise ValueError("Convolution and pooling layers must precede all other layers.")
+            if len(flatten) > 1 or (flatten and flatten[0] != len(spatial)):
+                raise ValueError("Flatten is only supported directly after the convolutional part.")
+            if linear and not flatten:
+                raise ValueError("A Flatten layer is required between the convolutional part and LogicDense layers.")
+        elif flatten and flatten != [0]:
+            raise ValueError("In a dense model Flatten is only supported as the first layer.")
+
+        # consecutive layers must agree on shapes
+        current_shape = tuple(self.input_shape)
+        for (layer_type, layer_idx), info in zip(self.layer_order, self._calculate_layer_output_sizes_and_shapes()):
+            if layer_type == 'conv':
+                conv_info = self.conv_layers[layer_idx]
+                expected = (conv_info['channels'], *conv_info['in_dim'])
+                if tuple(int(v) for v in current_shape) != tuple(int(v) for v in expected):
+                    raise ValueError(f"Convolution {layer_idx} expects input of shape {expected}, "
+                                     f"but the preceding layers produce {tuple(current_shape)}.")
+            elif layer_type == 'linear':
+                if len(current_shape) != 1 or int(current_shape[0]) != self.linear_in_dims[layer_idx]:
+                    raise ValueError(f"LogicDense {layer_idx} expects {self.linear_in_dims[layer_idx]} inputs, "
+                                     f"but the preceding layers produce shape {tuple(current_shape)}.")
+            current_shape = tuple(info[2])
+        if self.num_classes and self._get_output_size() % self.num_classes != 0:
+            raise ValueError(f"The number of outputs ({self._get_output_size()}) must be divisible by the "
+                             f"number of classes ({self.num_classes}).")
 
     def _extract_conv_layer_info(self, layer: Union[LogicConv2d, LogicConv3d]) -> Dict[str, Any]:
         """Extract information from a LogicConv2d or LogicConv3d layer for compilation."""
